@@ -153,6 +153,20 @@ func check(c Case) (o h.Outcome) {
 	lay := c.Layout
 	feat := lay.Features
 	o.NonTrivial = feat["files"] >= 3 && feat["external"] >= 2
+	if feat["element-twin"] > 0 && !strings.HasPrefix(lay.Root, "/") {
+		// twin files (shared/x.json and api/shared/x.json) under a relative root location: the default
+		// name resolver gives both the same name (open finding); any failure is attributed to it
+		defer func() {
+			if o.Violation != "" && !strings.HasSuffix(o.Signature, ":with-relative-twin") {
+				if i := strings.Index(o.Signature, ":"); i > 0 {
+					o.Signature = o.Signature[:i]
+				}
+				o.Signature += ":with-relative-twin"
+			}
+		}()
+	} else {
+		o.Excluded = append(o.Excluded, "twin-files-under-relative-root")
+	}
 	if feat["chain"] == 0 {
 		o.Excluded = append(o.Excluded, "chain-through-external-component")
 	} else {
@@ -407,6 +421,6 @@ func gen(t *rapid.T) Case {
 	// Chains through external components (a component that is itself a $ref to another
 	// document's component) are the known open finding of C16: they are excluded by
 	// construction so that the search continues behind them; C16_CHAINS=1 puts them back.
-	lay := fsgen.Generate(t, fsgen.Cfg{Absolute: rapid.Bool().Draw(t, "absolute"), NoChains: os.Getenv("C16_CHAINS") == "", ElementChains: true})
+	lay := fsgen.Generate(t, fsgen.Cfg{Absolute: rapid.Bool().Draw(t, "absolute"), NoChains: os.Getenv("C16_CHAINS") == "", ElementChains: true, RelativeTwins: os.Getenv("C16_RELTWINS") != ""})
 	return Case{Layout: lay, Entry: rapid.SampledFrom([]string{"uri", "datawithpath"}).Draw(t, "entry")}
 }
